@@ -1,1 +1,130 @@
-(* Proofs/GenC10Proofs.v - placeholder *)
+(** Proofs/GenC10Proofs.v — Tie B for C10: the loop bodies GENERATED from the current source of
+    Context.merge.merge_recurse and Context.set_defaults.defaults_recurse (Gen/GenC10.v, syntax
+    trees in the statement language of Model/Merge.v), interpreted by [Merge.run_item], ARE the
+    hand-written [merge_item] / [defaults_item] — for every state, cursor, key, value and every
+    behaviour of the recursive call; hence [run_rec] = [merge_rec] / [defaults_rec] for every
+    fuel, and the two steps read from their source are [step_run].
+
+    A change to the type dispatch (a test dropped, reordered, another class), to which value is
+    formatted (or when: before / after the key is hashed, inside / outside the union), to the
+    operand order of + and |, to what is assigned, extended or recursed into, to the key names
+    or the method the steps use, changes the generated term and these equalities stop being
+    provable.  The proofs are by case analysis on the MEANING of the generated tree, so a
+    refactor that keeps the meaning (renamed locals, elif chain <-> nested if, `continue`
+    instead of else) still goes through. *)
+From PV Require Import Format Merge MergeProofs.
+From PV.Gen Require Import GenC10.
+Open Scope string_scope.
+
+Lemma key_check_res s k cont :
+  key_check s k cont =
+  match key_res k with Ok _ => cont | Err n m => (SErr n m, s) | Unsup => (SUnsup, s) end.
+Proof. destruct k; reflexivity. Qed.
+
+(** case analysis on everything the two sides look at, in evaluation order (the formatted
+    incoming value first: in the str / tag branch the key is hashed after it) *)
+Ltac item_cases rec2 :=
+  repeat (cbn; unfold dict_has;
+    match goal with
+    | |- ?x = ?x => reflexivity
+    | |- context [fmtv ?f ?s ?v] => destruct (fmtv f s v) as [?x| |]
+    | |- context [key_check _ _ _] => rewrite key_check_res
+    | |- context [key_res ?k] => destruct (key_res k) as [[]| |]
+    | |- context [cur_dict ?s ?a] => destruct (cur_dict s a)
+    | |- context [dict_get ?k ?c] => destruct (dict_get k c) as [?ev|]
+    | |- context [set_of_list ?l] => destruct (set_of_list l)
+    | |- context [assign ?p ?s ?a ?k ?x ?sh] => destruct (assign p s a k x sh) as [[] ?]
+    | |- context [extend ?p ?s ?w ?x ?sh] => destruct (extend p s w x sh) as [[] ?]
+    | |- context [rec2 ?s ?b ?l] => destruct (rec2 s b l) as [[] ?]
+    | |- context [match ?x with _ => _ end] => is_var x; destruct x
+    end).
+
+Section Items.
+  Variable ff : nat.
+  Variable prot : option path.
+  Variables rec1 rec2 : st -> path -> dict -> out.
+  Hypothesis Hrec : forall s b l, rec1 s b l = rec2 s b l.
+
+  Opaque fmt fmtv assign extend leaf_share tree_share cur_dict set_of_list dict_get key_res.
+
+  Lemma gen_merge_item_is_model s a k v :
+    run_item ff prot rec1 gen_merge_body s a k v = merge_item ff prot rec2 s a k v.
+  Proof.
+    unfold run_item, gen_merge_body, merge_item, lift.
+    cbn. unfold lift_x, cur_item, share_of, with_k. cbn.
+    destruct (fmt ff s k) as [kf| |]; cbn; try reflexivity.
+    rewrite key_check_res.
+    destruct v; cbn; rewrite ?key_check_res, ?Hrec.
+    all: item_cases rec2; cbn; try reflexivity.
+  Qed.
+
+  Lemma gen_defaults_item_is_model s a k v :
+    run_item ff prot rec1 gen_defaults_body s a k v = defaults_item ff prot rec2 s a k v.
+  Proof.
+    unfold run_item, gen_defaults_body, defaults_item, lift.
+    cbn. unfold lift_x, cur_item, share_of, with_k. cbn.
+    destruct (fmt ff s k) as [kf| |]; cbn; try reflexivity.
+    rewrite key_check_res.
+    destruct v; cbn; rewrite ?key_check_res, ?Hrec.
+    all: item_cases rec2; cbn; try reflexivity.
+  Qed.
+
+  Transparent fmt fmtv assign extend leaf_share tree_share cur_dict set_of_list dict_get key_res.
+
+  Lemma gen_merge_items_is_model items : forall s a,
+    run_items ff prot rec1 gen_merge_body s a items = merge_items ff prot rec2 s a items.
+  Proof.
+    induction items as [|[k v] items IH]; intros s a; [reflexivity|].
+    cbn [run_items merge_items]. rewrite gen_merge_item_is_model.
+    destruct (merge_item ff prot rec2 s a k v) as [[| |] s1]; auto.
+  Qed.
+
+  Lemma gen_defaults_items_is_model items : forall s a,
+    run_items ff prot rec1 gen_defaults_body s a items = defaults_items ff prot rec2 s a items.
+  Proof.
+    induction items as [|[k v] items IH]; intros s a; [reflexivity|].
+    cbn [run_items defaults_items]. rewrite gen_defaults_item_is_model.
+    destruct (defaults_item ff prot rec2 s a k v) as [[| |] s1]; auto.
+  Qed.
+End Items.
+
+Lemma gen_merge_rec_is_model ff prot fuel : forall s a items,
+  run_rec ff prot gen_merge_body fuel s a items = merge_rec ff prot fuel s a items.
+Proof.
+  induction fuel as [|f IH]; intros s a items; [reflexivity|].
+  cbn [run_rec merge_rec]. now apply gen_merge_items_is_model.
+Qed.
+
+Lemma gen_defaults_rec_is_model ff prot fuel : forall s a items,
+  run_rec ff prot gen_defaults_body fuel s a items = defaults_rec ff prot fuel s a items.
+Proof.
+  induction fuel as [|f IH]; intros s a items; [reflexivity|].
+  cbn [run_rec defaults_rec]. now apply gen_defaults_items_is_model.
+Qed.
+
+Lemma gen_merge_top_is_model ff fuel root add :
+  run_top ff fuel gen_merge_body root add = merge_top ff fuel root add.
+Proof. apply gen_merge_rec_is_model. Qed.
+
+Lemma gen_defaults_top_is_model ff fuel root add :
+  run_top ff fuel gen_defaults_body root add = defaults_top ff fuel root add.
+Proof. apply gen_defaults_rec_is_model. Qed.
+
+(** pypyr/dsl.py: the subclasses of SpecialTagDirective are exactly the three tags of [val] *)
+Lemma gen_special_tags_is_model : gen_special_tag_classes = special_tag_classes.
+Proof. reflexivity. Qed.
+
+(** the two steps *)
+Lemma gen_contextmerge_step_is_model ff fuel root :
+  step_run_src gen_contextmerge_step ff fuel root = step_run true ff fuel root.
+Proof.
+  unfold step_run_src, step_run, gen_contextmerge_step. cbn.
+  destruct (sget "contextMerge" root) as [[]|]; reflexivity.
+Qed.
+
+Lemma gen_default_step_is_model ff fuel root :
+  step_run_src gen_default_step ff fuel root = step_run false ff fuel root.
+Proof.
+  unfold step_run_src, step_run, gen_default_step. cbn.
+  destruct (sget "defaults" root) as [[]|]; reflexivity.
+Qed.
